@@ -57,6 +57,21 @@ def gen_calendars(rnd, tier):
             for eol in (b'\n', b'\r\n'):
                 if tier != 'thorough' and eol == b'\r\n' and k % 2: k += 1; continue
                 cals.append(('gen:multi%d' % k, sep.join(eol.join(c) + eol for c in combo))); k += 1
+    # components the reader skips (VTIMEZONE with its sub-components before the events, a VALARM inside an event, VJOURNAL/VFREEBUSY
+    # between them), with lines that look like property lines of events, a folded line and BEGIN/END lines of their own: what follows
+    # them is read as if they were not there, wherever the pieces end
+    tzc = [b'BEGIN:VTIMEZONE', b'TZID:Europe/Berlin', b'BEGIN:STANDARD', b'DTSTART:19701025T030000', b'RRULE:FREQ=YEARLY;BYMONTH=10;BYDAY=-1SU', b'TZOFFSETFROM:+0200', b'TZOFFSETTO:+0100', b'END:STANDARD',
+           b'BEGIN:DAYLIGHT', b'DTSTART:19700329T020000', b'TZNAME:CEST', b'END:DAYLIGHT', b'X-LIC-LOCATION:Europe/Berlin', b'END:VTIMEZONE']
+    alarm = [b'BEGIN:VALARM', b'ACTION:DISPLAY', b'DESCRIPTION:Begin of the end', b'TRIGGER:-PT15M', b'END:VALARM']
+    jour = [b'BEGIN:VJOURNAL', b'UID:j-1', b'DTSTART:20300101T000000Z', b'SUMMARY:End of', b' the year', b'END:VJOURNAL']
+    ev1 = [b'BEGIN:VEVENT', b'UID:f-1', b'SUMMARY:echo f1', b'DTSTART:20300101T000000Z', b'RRULE:FREQ=DAILY;COUNT=2']
+    ev2 = [b'BEGIN:VEVENT', b'UID:f-2', b'SUMMARY:echo f2', b'DTSTART;VALUE=DATE:20300201', b'END:VEVENT']
+    fcs = [[b'BEGIN:VCALENDAR', b'VERSION:2.0'] + tzc + ev1 + [b'END:VEVENT'] + ev2 + [b'END:VCALENDAR'],
+           [b'BEGIN:VCALENDAR', b'VERSION:2.0'] + ev1 + alarm + [b'END:VEVENT'] + jour + ev2 + [b'END:VCALENDAR'],
+           [b'BEGIN:VCALENDAR', b'METHOD:PUBLISH'] + ev2 + tzc + jour + ev1 + alarm + [b'LOCATION:/tmp', b'END:VEVENT', b'END:VCALENDAR']]
+    for i, fc in enumerate(fcs if tier == 'thorough' else rnd.sample(fcs, 2)):
+        for eol in (b'\n', b'\r\n'):
+            cals.append(('gen:foreign%d' % i + ('crlf' if eol == b'\r\n' else 'lf'), eol.join(fc) + eol))
     # many ATTENDEE lines (they go into a string pool that grows by doubling): lengths drawn at random and lengths made to fill the
     # pool exactly (each address plus its terminator; sums of 16, 32, 64, ... ) with more lines following
     def attcal(lens):
